@@ -41,7 +41,18 @@ type Case struct {
 	T       int    `json:"t"`
 	Signers []int  `json:"signers"`
 	Sigs    []Sig  `json:"sigs"`
-	Mut     string `json:"mut"`
+	Mut     string `json:"mut"` // "" | signed field | "idlen" (byte length of one identity preimage changed)
+	// Ann is the history of keyper sets announced for the eon, oldest first: "S" = members
+	// 0..n-1, "X" = outsider, members 0..n-2.  The eon's set is the last one.
+	Ann []string `json:"ann"`
+}
+
+// LastAnn is the keyper set of the eon.
+func (c *Case) LastAnn() string {
+	if len(c.Ann) == 0 {
+		return "S"
+	}
+	return c.Ann[len(c.Ann)-1]
 }
 
 // Tuple is the concrete signed data.
@@ -63,6 +74,8 @@ type Universe struct {
 	// identity lists per flavour: [0] base, [1] replacement (both sorted, usable in a message),
 	// [2] what a signature "over changed ids" signs when the message carries the base list
 	ids map[string][3][][]byte
+	// the base list with the byte length of one preimage changed (no SSZ root exists for it)
+	idlen map[string][][]byte
 
 	oor      [MaxMembers + 1]uint64 // concrete out-of-range signer index per n
 	garbSeed int64
@@ -134,6 +147,37 @@ func cloneIDs(l [][]byte) [][]byte {
 	return out
 }
 
+// lengthVariant changes the byte length of one preimage of the (sorted) base list, keeping the
+// list sorted: 0 bytes appended to the last one, 1 trailing zero bytes of the first one stripped
+// (the base list's first preimage ends in zero bytes), 2 the first one truncated further,
+// 3 zero bytes appended to the last one.
+func lengthVariant(rng *rand.Rand, base [][]byte, variant int) [][]byte {
+	l := cloneIDs(base)
+	last := len(l) - 1
+	switch variant % 4 {
+	case 0:
+		extra := make([]byte, 1+rng.Intn(8))
+		rng.Read(extra)
+		extra[len(extra)-1] |= 1
+		l[last] = append(l[last], extra...)
+	case 1:
+		b := l[0]
+		for len(b) > 1 && b[len(b)-1] == 0 {
+			b = b[:len(b)-1]
+		}
+		l[0] = b
+	case 2:
+		b := l[0]
+		for len(b) > 1 && b[len(b)-1] == 0 {
+			b = b[:len(b)-1]
+		}
+		l[0] = b[:len(b)-1-rng.Intn(len(b)/2)]
+	default:
+		l[last] = append(l[last], make([]byte, 1+rng.Intn(12))...)
+	}
+	return l
+}
+
 func makeIDs(rng *rand.Rand, size int) [3][][]byte {
 	k := 1 + rng.Intn(3)
 	base := make([][]byte, k)
@@ -142,6 +186,11 @@ func makeIDs(rng *rand.Rand, size int) [3][][]byte {
 		rng.Read(base[i])
 	}
 	sortIDs(base)
+	// boundary member: the smallest preimage ends in zero bytes (stays the smallest)
+	for z := 1 + rng.Intn(3); z > 0; z-- {
+		base[0][size-z] = 0
+	}
+	base[0][size-4] |= 1
 	fresh := func() []byte { b := make([]byte, size); rng.Read(b); return b }
 	alt := cloneIDs(base)
 	switch v := rng.Intn(4); {
@@ -184,6 +233,10 @@ func NewUniverse(seed int64, id int, withEon bool) *Universe {
 		u.val[f.name] = [2]uint64{v, replacement(rng, v, f.max)}
 	}
 	u.ids = map[string][3][][]byte{"gnosis": makeIDs(rng, 52), "service": makeIDs(rng, 32)}
+	u.idlen = map[string][][]byte{
+		"gnosis":  lengthVariant(rng, u.ids["gnosis"][0], id),
+		"service": lengthVariant(rng, u.ids["service"][0], id+1),
+	}
 	for n := 0; n <= MaxMembers; n++ {
 		cands := []uint64{uint64(n), uint64(n) + 7, 1 << 32, 1<<32 + 1, 1 << 63, math.MaxUint64, math.MaxInt32 + 1}
 		u.oor[n] = cands[rng.Intn(len(cands))]
@@ -199,10 +252,14 @@ func NewUniverse(seed int64, id int, withEon bool) *Universe {
 	return u
 }
 
-// KeyperSet returns the keyper set (n, t) of the case at config index eon.
-func (u *Universe) KeyperSet(c *Case, eon uint64) *obskeyper.KeyperSet {
+// KeyperSet returns the keyper set (n, t) of the case at config index eon; kind "S": members
+// 0..n-1, kind "X": the outsider followed by members 0..n-2.
+func (u *Universe) KeyperSet(c *Case, eon uint64, kind string) *obskeyper.KeyperSet {
 	ks := &obskeyper.KeyperSet{KeyperConfigIndex: int64(eon), ActivationBlockNumber: 0, Threshold: int32(c.T), Keypers: []string{}}
-	for i := 0; i < c.N; i++ {
+	if kind == "X" {
+		ks.Keypers = append(ks.Keypers, shdb.EncodeAddress(crypto.PubkeyToAddress(u.outsider.PublicKey)))
+	}
+	for i := 0; len(ks.Keypers) < c.N; i++ {
 		ks.Keypers = append(ks.Keypers, shdb.EncodeAddress(u.addrs[i]))
 	}
 	return ks
@@ -219,6 +276,8 @@ func (u *Universe) tuple(flav, changed string, sigOnly bool) Tuple {
 	}
 	t := Tuple{Instance: pick("instance"), Eon: pick("eon"), Slot: pick("slot"), TxPtr: pick("txptr")}
 	switch {
+	case changed == "idlen":
+		t.IDs = u.idlen[flav]
 	case changed == "ids" && sigOnly:
 		t.IDs = u.ids[flav][2]
 	case changed == "ids":
@@ -403,12 +462,9 @@ func (u *Universe) Describe(c *Case) map[string]any {
 	for i := range c.Sigs {
 		sigs = append(sigs, fmt.Sprintf("%x", u.Signature(c, i)))
 	}
-	keypers := []string{}
-	for i := 0; i < c.N; i++ {
-		keypers = append(keypers, u.addrs[i].Hex())
-	}
+	keypers := u.KeyperSet(c, t.Eon, c.LastAnn()).Keypers
 	return map[string]any{
 		"instance": t.Instance, "eon": t.Eon, "slot": t.Slot, "tx_pointer": t.TxPtr, "identity_preimages": ids,
-		"signer_indices": u.SignerIndices(c), "signatures": sigs, "keypers": keypers, "threshold": c.T,
+		"signer_indices": u.SignerIndices(c), "signatures": sigs, "keypers": keypers, "threshold": c.T, "announced": c.Ann,
 	}
 }
